@@ -2855,7 +2855,11 @@ class BipartiteGraphEmbed(Decomposition):
         self._check_p0(A)
         self.mean_photon_per_mode = mean_photon_per_mode
         self.tol = tol
-        self.identity = np.all(np.abs(A - np.identity(len(A))) < _decomposition_merge_tol)
+        # only a full adjacency matrix could mark a trivial embedding; an edge matrix B equal to the
+        # identity is a perfect matching between the two vertex sets and has to be embedded
+        self.identity = (not edges) and bool(
+            np.all(np.abs(A - np.identity(len(A))) < _decomposition_merge_tol)
+        )
         self.drop_identity = drop_identity
 
         if edges:
